@@ -466,7 +466,9 @@ func runRun1(m map[string]string) string {
 			addr, stop = newHostileGrpc(k)
 			defer stop()
 		} else {
-			addr = sharedGrpc()
+			var release func()
+			addr, release = acquireGrpc()
+			defer release()
 		}
 		passes := atoi(m["m"], 1)
 		f := shot.TempFile(".json", shot.GrpcAmmo(reqs))
@@ -515,7 +517,8 @@ func runRun1(m map[string]string) string {
 			}
 			calls = append(calls, c)
 		}
-		addr := sharedGrpc()
+		addr, release := acquireGrpc()
+		defer release()
 		f := shot.TempFile(".hcl", shot.GrpcScenarioHCL("gscn", calls))
 		gy := fmt.Sprintf(`{type: grpc/scenario, target: "%s"`, addr)
 		if to := atoi(m["to"], 0); to > 0 {
